@@ -293,10 +293,68 @@ func (c *aConn) ExecContext(ctx context.Context, q string, args []driver.NamedVa
 	if d.savepointStmt(q) {
 		return aResult{}, nil
 	}
+	// a batch of statements ("a; b"): each is applied in turn; the ground truth of the
+	// batch is, per row, its content before the first and after the last change
+	if sts, _, err := parser.New().Parse(q, "", ""); err == nil && len(sts) > 1 {
+		var before, after []aRow
+		var last driver.Result
+		total := int64(0)
+		for _, st := range sts {
+			r, err := c.execOne(st, q, args)
+			if err != nil {
+				return nil, err
+			}
+			last = r
+			if ar, ok := r.(aResult); ok {
+				total += ar.affected
+			}
+			for i, b := range d.changedBefore {
+				seenAt := -1
+				for j := range before {
+					if d.sameKey(before[j].cells, b.cells) {
+						seenAt = j
+					}
+				}
+				var a aRow
+				if i < len(d.changedAfter) {
+					a = d.changedAfter[i]
+				}
+				if seenAt < 0 {
+					before = append(before, b)
+					after = append(after, a)
+				} else {
+					after[seenAt] = a
+				}
+			}
+		}
+		d.changedBefore = before
+		d.changedAfter = nil
+		for _, a := range after {
+			if a.present {
+				d.changedAfter = append(d.changedAfter, a)
+			}
+		}
+		_ = last
+		return aResult{affected: total}, nil
+	}
 	st := d.parse(q)
 	if st == nil {
 		return nil, errors.New(d.bad)
 	}
+	return c.execOne(st, q, args)
+}
+
+func (d *aDB) sameKey(a, b []int64) bool {
+	for _, p := range d.pk {
+		if a[p] != b[p] {
+			return false
+		}
+	}
+	return true
+}
+
+func (c *aConn) execOne(st ast.StmtNode, q string, args []driver.NamedValue) (driver.Result, error) {
+	d := c.d
 	d.changedBefore, d.changedAfter = nil, nil
 	switch x := st.(type) {
 	case *ast.UpdateStmt:
